@@ -122,6 +122,23 @@ def gen_case(rng, nops):
                         'q': queries(t, key)})
             nh += 1
             remember(t, key, True)
+            r2 = rng.random()
+            if r2 < 0.3:
+                ops.append({'o': 'clear', 't': t, 'q': queries(t, key)})
+            elif r2 < 0.5:
+                j = nm
+                nm += 1
+                inserted.add(j)
+                container[j] = i
+                ops.append({'o': 'set', 't': t, 'k': key, 'v': ['m', j],
+                            'q': queries(t, key)})
+                remember(t, key, False)
+            elif r2 < 0.65:
+                k2 = key + rand_key(rng, 1)
+                ops.append({'o': 'set', 't': t, 'k': k2, 'v': ['h', nh],
+                            'q': queries(t, key)})
+                nh += 1
+                remember(t, k2, True)
             continue
         key = pick_key(i)
         rv = rng.random()
@@ -144,7 +161,7 @@ def gen_case(rng, nops):
         ops.append({'o': 'set', 't': t, 'k': key, 'v': v, 'q': queries(t, key)})
         remember(t, key, v[0] == 'h')
     # a few spare maps so that populated-before-insertion values exist
-    return dict(nm=nm + 1, nh=nh, ops=ops[:nops + 1])
+    return dict(nm=nm + 1, nh=nh, ops=ops)
 
 
 def gen(rng, tier):
@@ -299,3 +316,20 @@ def stats(cases, traces):
                     elif isinstance(res, list):
                         d['found_answers'] += 1
     return d
+
+
+def shrink(case):
+    """drop operations (tail first), then queries"""
+    ops = case['ops']
+    n = len(ops)
+    for k in range(1, n):
+        yield dict(case, ops=ops[:k])
+    for i in range(n):
+        yield dict(case, ops=ops[:i] + ops[i + 1:])
+    for i in range(n):
+        if ops[i]['q']:
+            yield dict(case, ops=ops[:i] + [dict(ops[i], q=[])] + ops[i + 1:])
+    for i in range(n):
+        for j in range(len(ops[i]['q'])):
+            q = ops[i]['q']
+            yield dict(case, ops=ops[:i] + [dict(ops[i], q=q[:j] + q[j + 1:])] + ops[i + 1:])
